@@ -171,6 +171,24 @@ func decodeUnmarshalerContext(ctx *RuntimeContext, buf []byte, cursor, depth int
 	return end, nil
 }
 
+// nonStringValue names the kind of a JSON value that is not a string ( and not null ), "" for a string.
+func nonStringValue(src []byte) string {
+	if len(src) == 0 {
+		return ""
+	}
+	switch src[0] {
+	case '[':
+		return "array"
+	case '{':
+		return "object"
+	case '-', '0', '1', '2', '3', '4', '5', '6', '7', '8', '9':
+		return "number"
+	case 't', 'f':
+		return "bool"
+	}
+	return ""
+}
+
 func decodeStreamTextUnmarshaler(s *Stream, depth int64, unmarshaler encoding.TextUnmarshaler, p unsafe.Pointer) error {
 	s.skipWhiteSpace()
 	start := s.cursor
@@ -181,6 +199,14 @@ func decodeStreamTextUnmarshaler(s *Stream, depth int64, unmarshaler encoding.Te
 	if bytes.Equal(src, nullbytes) {
 		*(*unsafe.Pointer)(p) = nil
 		return nil
+	}
+	if name := nonStringValue(src); name != "" {
+		// UnmarshalText takes the text of a string ( as in encoding/json and in unmarshalTextDecoder )
+		return &errors.UnmarshalTypeError{
+			Value:  name,
+			Type:   reflect.TypeOf(unmarshaler),
+			Offset: s.totalOffset(),
+		}
 	}
 
 	dst := make([]byte, len(src))
@@ -207,6 +233,14 @@ func decodeTextUnmarshaler(buf []byte, cursor, depth int64, unmarshaler encoding
 	if bytes.Equal(src, nullbytes) {
 		*(*unsafe.Pointer)(p) = nil
 		return end, nil
+	}
+	if name := nonStringValue(src); name != "" {
+		// UnmarshalText takes the text of a string ( as in encoding/json and in unmarshalTextDecoder )
+		return 0, &errors.UnmarshalTypeError{
+			Value:  name,
+			Type:   reflect.TypeOf(unmarshaler),
+			Offset: start,
+		}
 	}
 	if s, ok := unquoteBytes(src); ok {
 		src = s
